@@ -54,6 +54,9 @@ func (s Signature) Leaf() *x509.Certificate {
 
 // Extract and verify an enveloped signature at the given root
 func Verify(root *etree.Element, sigpath string, extraCerts []*x509.Certificate) (*Signature, error) {
+	if root == nil {
+		return nil, errors.New("xmldsig: document has no root element")
+	}
 	orig := root
 	root = root.Copy()
 	// the copy is detached from its ancestors, keep the namespaces they declare
